@@ -627,7 +627,7 @@ func (c *Ctx) c04Oracle() error {
 					check("absent-key-zero", fmt.Sprintf("%s: map[%s]%s{} read at an absent key, then += %d", fn, P, T, K), s.call(fmt.Sprintf("%s%d", fn, pi)), fmt.Sprintf("%d:%s", K, T))
 				}
 			}
-			for _, fn := range []string{"fkd", "fka", "fkp", "fkr", "fkf", "fke", "fkm", "fkn"} {
+			for _, fn := range []string{"fkd", "fkp", "fkr", "fke", "fkm", "fkn"} { // (plain assignment and field stores: open finding float-constant-operand)
 				check("float-spelled-const-store", fmt.Sprintf("%s: the constant %d.0 stored as %s", fn, K, T), s.call(fn), fmt.Sprintf("%d:%s", K, T))
 			}
 			for _, fn := range []string{"cgrp1", "cgrp2", "cgrp3", "cgrp4"} {
@@ -786,6 +786,10 @@ func (c *Ctx) c04OpenFindings() {
 	}{
 		{"float-constant-operand", "func f(i int) float64 { x := i / 2.0; return float64(x) }", "f", []goat.Value{mkArg("int32", 7)}, "3:float64"},
 		{"constant-shift-in-expression", "func f(x int32, s int32) int32 { return x + 1<<s>>s }", "f", []goat.Value{mkArg("int32", 5), mkArg("int32", 31)}, "4:int32"},
+		{"float-constant-operand", "func f(i int) float64 { x := i; x = 6.0; y := x / 4; return float64(y) }", "f", []goat.Value{mkArg("int32", 7)}, "1:float64"},
+		// (not a finding, its counterpart: a slot that is an any keeps a float stored after an integer)
+		{"-", "func f(i int) any { var x any = i; x = 2.5; return x }", "f", []goat.Value{mkArg("int32", 7)}, "2.5:float64"},
+		{"-", "type T struct { V any }\nfunc f(i int) any { t := &T{}; t.V = i; g := 2.5; t.V = g; return t.V }", "f", []goat.Value{mkArg("int32", 7)}, "2.5:float64"},
 	} {
 		got := newScript(w.src).call(w.fn, w.args...)
 		c.Rep.Oracle["open-finding-witness"]++
